@@ -12,6 +12,7 @@ import (
 	"regexp"
 	"strings"
 	"sync"
+	"sync/atomic"
 	"time"
 
 	"verif/harness/internal/run"
@@ -32,6 +33,17 @@ type c11Case struct {
 	FailKind string `json:"fail_kind,omitempty"`
 	Files    []int  `json:"file_requests,omitempty"` // request indexes carrying an upload
 	Jitter   uint64 `json:"jitter_seed"`
+}
+
+// c11Hangs counts cases of this process in which Query did not return; after a few of them the
+// bound shrinks so that a change which hangs many cases does not stall the run for hours.
+var c11Hangs int32
+
+func c11ReturnBound() time.Duration {
+	if atomic.LoadInt32(&c11Hangs) >= 3 {
+		return 3 * time.Second
+	}
+	return 20 * time.Second
 }
 
 func (c11) ID() string                 { return "C11" }
@@ -297,6 +309,11 @@ func (p c11) Exec(c *run.Ctx, idx int, raw json.RawMessage) []run.Result {
 		}
 	}
 	q := queryer.NewMultiOpQueryer("http://c11.test/graphql", sp.M).WithHTTPClient(&http.Client{Transport: rt})
+	if atomic.LoadInt32(&c11Hangs) >= 8 {
+		// this process is littered with stuck Query calls, each already reported; the remaining cases of its batch are not run
+		res.Verdict, res.Symptom, res.Message = run.Inconclusive, "not-run-after-repeated-hangs", "8 cases of this child process already ended with query-did-not-return"
+		return []run.Result{res}
+	}
 	sched.Install(sched.Options{Seed: sp.Jitter, Jitter: true, Record: true, MaxEvents: 5000})
 	defer sched.Uninstall()
 	type out struct {
@@ -377,8 +394,10 @@ func (p c11) Exec(c *run.Ctx, idx int, raw json.RawMessage) []run.Result {
 	var o out
 	select {
 	case o = <-done:
-	case <-time.After(60 * time.Second):
-		res.Verdict, res.Symptom, res.Message = run.Violated, "query-did-not-return", fmt.Sprintf("N=%d m=%d order=%v", sp.N, sp.M, sp.Order)
+	case <-time.After(c11ReturnBound()):
+		// every chunk call was released and answered long ago (in-memory transport): Query is stuck
+		atomic.AddInt32(&c11Hangs, 1)
+		res.Verdict, res.Symptom, res.Message = run.Violated, "query-did-not-return", fmt.Sprintf("N=%d m=%d order=%v fail=%d/%s: Query had not returned %v after its last downstream call was answered", sp.N, sp.M, sp.Order, sp.FailAt, sp.FailKind, c11ReturnBound())
 		return []run.Result{res}
 	}
 	res.Traces = sched.TraceHashes(sched.Events())
